@@ -426,7 +426,8 @@ PROP = Prop(
           "uniformly over years 1..9000, sizes 1..400, all five dated units; ops stop/days/size_in_*/subperiods:<unit>/"
           "offset/offset round trip/instant offset/contains/intersection/named periods; second periods built "
           "near/inside/same/far. A case is non-trivial when its size is not 1 or the op relates two periods / splits; "
-          "distinct = distinct protocol lines."),
+          "distinct = distinct protocol lines. Corpus: the sixth unit -- every operation on the ETERNITY period and with the eternity unit "
+          "(binding for the correspondence, no calendar statement applies)."),
     assumptions=[
         "pendulum.Date.add/start_of/end_of/diff().in_weeks and datetime.date.toordinal/isocalendar are modelled (Calendar.lean), tied by this correspondence",
         "claim domain: dated units, sizes >= 1, years 1..9999; year<->week(day) sizes and cross-family or unaligned sub-periods are compared but not binding",
